@@ -7,6 +7,7 @@ LEAN_MODULES = ["ViaProofs.C08"]
 LEMMA_MODULES = ['ViaProofs.Trans.RL', 'ViaProofs.Trans.SL', 'ViaProofs.Trans.FL', 'ViaProofs.Trans.CH', 'ViaProofs.Trans.MH', 'ViaProofs.Trans.CK']
 REQUIRED_THEOREMS = ['Via.hex_roundtrip', 'Via.dec_roundtrip', 'Via.std_names_parse', 'Via.own_headers_parse', 'Via.chunk_header_roundtrip']
 LEVEL = "proof"
+LEVEL_TEXT = ('PROOF of hex/decimal round trips for all numbers, that every header name the library defines (regenerated table) is accepted by its own parser, and of the chunk header round trip; differential loop-back of encoder output through the real receivers for generated components.')
 RULE = ("requests / responses / chunks / last-chunks built through tx_request, tx_response, chunk_header and last_chunk from valid "
         "components (all 8 method ids and arbitrary upper-case methods, targets, versions, every header id of the enumeration "
         "and arbitrary token names, values without line breaks, bodies, chunk sizes incl. hex-width edges, extensions, trailers) "
